@@ -350,11 +350,75 @@ def _machine_run_effect(eng, vals, result):
     return eng.spawn(g, None)
 
 
+def _io_isnum(sv, t):
+    """Task.io is a union field: a dict of transfer volumes (workflow tasks), None (default) or a number (ingest tasks: 0)"""
+    return z3.Select(sv.heap('Task', 'io.isnum', B), t)
+
+
+def _io_num(sv, t):
+    return z3.Select(sv.heap('Task', 'io.num', R), t)
+
+
+MACHINE_LOAD = ['heap:Machine.cpu', 'heap:Machine.memory', 'heap:Machine.disk', 'heap:Machine.status', 'heap:Machine.current_task']
+
+
+def _mstore(c, field, val):
+    return c.n.heap('Machine', field) == z3.Store(c.o.heap('Machine', field), c.o.self.t, val)
+
+
+def _mrt_ens(c, sign):
+    o = c.o
+    m, t = o.self, o.task_instance
+    return [('cpu', _mstore(c, 'cpu', m.cpu.t + sign * t.flops.t)),
+            ('memory', _mstore(c, 'memory', m.memory.t + sign * t.task_data.t)),
+            ('disk', _mstore(c, 'disk', m.disk.t + sign * _io_num(o, t.t)))]
+
+
+MS = lambda m: enum_code('Status', m)
+
+REG.contract('Machine.run_task', params={'task_instance': 'Task'},
+             requires=lambda c: [('task-io-is-a-number', _io_isnum(c.o, c.o.task_instance.t))],
+             ensures=lambda c: _mrt_ens(c, -1) + [('in-use', _mstore(c, 'status', MS('IN_USE'))),
+                                                  ('current-task', _mstore(c, 'current_task', c.o.task_instance.t))],
+             modifies=MACHINE_LOAD, invariants=False, props=['C01'])
+REG.contract('Machine.stop_task', params={'task_instance': 'Task'},
+             requires=lambda c: [('task-io-is-a-number', _io_isnum(c.o, c.o.task_instance.t))],
+             ensures=lambda c: _mrt_ens(c, 1) + [('idle', _mstore(c, 'status', MS('IDLE'))),
+                                                 ('no-current-task', _mstore(c, 'current_task', z3.IntVal(0)))],
+             modifies=MACHINE_LOAD, invariants=False, props=['C01'])
+
+
+def _mrun_ens(c):
+    """Machine.run(task): loads the machine, starts exactly one do_work(env, this machine, predecessor_allocations) for the
+    task, unloads the machine again (capacities back to what they were) and returns that process"""
+    o = c.o
+    out = []
+    if 'spawns' in c.x:
+        # verification of the body (at a call site the spawn is the contract's `effect`, which starts exactly this process)
+        sp = [(g, p) for g, p, nd in c.x['spawns'] if g.qual == 'Task.do_work']
+        one = len(sp) == 1 and len(c.x['spawns']) == 1
+        out.append(('C01-exactly-one-execution-started', z3.BoolVal(one)))
+        if one:
+            g, p = sp[0]
+            out += [('C01-it-executes-this-task-on-this-machine', z3.And(g.args['self'].t == o.task.t, g.args['machine'].t == o.self.t)),
+                    ('returns-that-process', z3.BoolVal(c.result._v is p))]
+    out += [('capacities-restored', z3.And(c.n.heap('Machine', 'cpu') == c.o.heap('Machine', 'cpu'),
+                                           c.n.heap('Machine', 'memory') == c.o.heap('Machine', 'memory'),
+                                           c.n.heap('Machine', 'disk') == c.o.heap('Machine', 'disk'))),
+            ('idle-again', z3.And(_mstore(c, 'status', MS('IDLE')), _mstore(c, 'current_task', z3.IntVal(0))))]
+    return out
+
+
 REG.contract('Machine.run', params={'task': 'Task', 'env': 'env', 'predecessor_allocations': 'any'},
-             requires=lambda c: [('C01-task-is-scheduled', c.o.task.task_status.t == TS('SCHEDULED'))],
-             effect=_machine_run_effect, assumed=True,
-             note="ASSUMED, body not verified: run_task/stop_task subtract and re-add task.io (a number for ingest tasks, a dict "
-                  "for workflow tasks: only ingest tasks reach it); net effect on the machine is nil; spawns exactly one do_work")
+             requires=lambda c: [('C01-task-is-scheduled', c.o.task.task_status.t == TS('SCHEDULED')),
+                                 ('task-io-is-a-number', _io_isnum(c.o, c.o.task.t))],
+             ensures=_mrun_ens, effect=_machine_run_effect, modifies=['heap:Machine.status', 'heap:Machine.current_task'],
+             props=['C01', 'C04'],
+             note="body verified (was an assumed contract): run_task / stop_task subtract and re-add task.io, which is a number "
+                  "only for ingest tasks (a dict for workflow tasks: TypeError) - hence the precondition; exactly one do_work")
+REG.loop('Machine.run', 0, inv=lambda c: [('task-still-scheduled', c.n.task.task_status.t == TS('SCHEDULED')),
+                                          ('task-io-still-a-number', _io_isnum(c.n, c.n.task.t))],
+         modifies_locals=['ret'], modifies=[], props=['C01'])
 
 
 def _atc_accept(c):
@@ -369,6 +433,7 @@ def _atc_req(c):
     k = CV(c.o.self)
     t = c.o.task
     return [('C03-an-ingest-allocation-is-for-an-ingest-task', z3.Implies(c.o.ingest.t, t.ghost_ingest.t)),
+            ('an-ingest-task-carries-a-number-for-io', z3.Implies(c.o.ingest.t, _io_isnum(c.o, t.t))),
             ('C04-task-not-run-before', z3.And(k.run.count(t) == 0, z3.Not(z3.And(k.fin.has(t), z3.Select(k.fin.vals, t.t))))),
             ('task-is-an-object', t.t > 0)]
 
@@ -413,7 +478,8 @@ REG.contract('Cluster.allocate_task_to_cluster',
              requires=_atc_req, yields={0: _atc_y, 1: _atc_y}, step=_atc_step,
              raises={'RuntimeError': dict(when=lambda c: z3.Not(_atc_accept(c)))},
              modifies=RES + ['self._tasks.running', 'self._tasks.finished', 'self._usage_data.available', 'self._usage_data.running_tasks',
-                             'self._usage_data.ingest', 'self._usage_data.finished_tasks', 'heap:Task.task_status', 'heap:Task.delay_flag'],
+                             'self._usage_data.ingest', 'self._usage_data.finished_tasks', 'heap:Task.task_status', 'heap:Task.delay_flag',
+                             'heap:Machine.status', 'heap:Machine.current_task'],
              props=['C01', 'C02', 'C04', 'C09', 'C12', 'C03'])
 
 
@@ -506,7 +572,7 @@ TASK_FIELDS = ['id', 'est', 'eft', 'ast', 'aft', 'allocated_machine_id', 'durati
 def _ingest_task_facts(sv, t, obs):
     H = lambda f: z3.Select(sv.heap('Task', f), t)
     return z3.And(H('duration') == obs.duration.t, H('task_status') == TS('SCHEDULED'), H('flops') == 0, H('task_data') == 0,
-                  H('delay') == 0)
+                  H('delay') == 0, _io_isnum(sv, t), _io_num(sv, t) == 0)
 
 
 def _git_inv(c):
